@@ -66,7 +66,7 @@ fn script_strat(_: &Ctx) -> BoxedStrategy<StepCase> {
     (2usize..=8)
         .prop_flat_map(|n| {
             (
-                steps_inner(6000, 30),
+                steps_inner(6000, 100),
                 prop_oneof![2 => Just(0.), 1 => (-3.0..1.0f64).prop_map(|e| 10f64.powf(e))],
                 prop_oneof![Just(None), Just(Some(0.)), Just(Some(0.5))],
                 prop_oneof![4 => (-7.0..0.0f64).prop_map(|e| 10f64.powf(e)), 1 => Just(1.0), 1 => Just(0.01), 1 => Just(0.), 1 => Just(5.0e-5)],
